@@ -188,3 +188,49 @@ HARNESSES = [
             params={"quick": [{"ncls": 2}, {"ncls": 3, "_shards": 2}], "thorough": [{"ncls": 4, "_shards": 16}]}),
     Harness("C02.update_truncates", update_truncates, functions=_F, assumptions=_A, params={"quick": [{"ncls": 3}], "thorough": [{"ncls": 5}]}),
 ]
+
+
+def stats_of_stored(ctx, ncls=3, nel=2, rdf=0):
+    """one post-processing sequence of the real model on a symbolic state vector -- _processX, _calcMassBalance, _updateParticleSizeDistribution, in the
+    order PrecipitateBase.postProcess runs them -- with a symbolic minimum radius: the statistics written for the step are the moments of the
+    distribution the model holds after the step (classes below minRadius / the driving-force limit are cleared in BOTH places, or the reported
+    density counts particles that are in no size class of the stored distribution)"""
+    from harness import c03
+    m, info = mk_kwn(ctx, 1, nel, ncls, hist=1)
+    m.therm = c03.MultiStub(ctx, nel, [False] * 3)
+    m.removeCache = False
+    m.precipitateParameters[0]._gamma = 0.1
+    m.PBM[0].originalBins = 4; m.PBM[0].maxBins = 10 * ncls; m.PBM[0].minBins = 1
+    m.PBM[0].getDissolutionIndex = lambda *a, **k: 0
+    m.growth = [ctx.reals("prev_growth", ncls + 1, (-1.0, 1.0))]
+    ctx.assume(m.growth[0][0] > 0)
+    m.pData.drivingForce = ctx.reals("dG", (1, 1), (0.0, 1.0)); ctx.assume(m.pData.drivingForce[0, 0] >= 0)
+    m.RdrivingForceIndex = np.array([rdf], dtype=np.int32)
+    m.constraints.minRadius = ctx.real("minRadius", (0.0, 4.0)); ctx.assume(m.constraints.minRadius >= 0)
+    x = [ctx.reals("x0", ncls, (0.0, 4.0))]
+    for i in range(ncls):
+        ctx.assume(ctx.any([ctx.eq(x[0][i], 0.0), x[0][i] > 1]))       # the documented one-particle truncation is not the subject here
+    ctx.assume(ctx.eq(x[0][ncls - 1], 0.0))                           # nothing in the last class: the grid is not extended
+    t = ctx.real("t", (0.1, 1.0))
+    m._processX(x)
+    Y = m._calcMassBalance(t, x, m.pData.copySlice(0))
+    m._updateParticleSizeDistribution(t, x)
+    ctx.observe("reported density", Y.precipitateDensity[0, 0])
+    if m.PBM[0].bins != ncls:
+        return
+    r = radii(info, 0, ncls)
+    stored = m.PBM[0].PSD
+    n0 = sum(stored[i] for i in range(ncls)); m1 = sum(stored[i] * r[i] for i in range(ncls))
+    ctx.prove("reported number density is the zeroth moment of the distribution held after the step", ctx.eq(Y.precipitateDensity[0, 0], n0))
+    ctx.prove("reported mean radius is first/zeroth moment of the distribution held after the step",
+              ctx.implies(n0 > info["minDens"], ctx.eq(Y.Ravg[0, 0] * n0, m1)))
+    for i in range(ncls):
+        ctx.prove("no stored class below the minimum radius holds particles", ctx.implies(r[i] < m.constraints.minRadius, ctx.eq(stored[i], 0.0)))
+
+
+HARNESSES.append(
+    Harness("C02.stats_of_stored", stats_of_stored, functions=[PrecipitateModel._processX, PrecipitateModel._calcMassBalance, PrecipitateModel._updateParticleSizeDistribution, PBM.UpdatePBMEuler],
+            assumptions=_A + ["multicomponent, one phase; populations are 0 or > 1 per class (the one-particle truncation is C02.update_truncates); last class empty and not all growth rates negative (grid unchanged; paths where it changes are skipped)",
+                              "minRadius symbolic >= 0; driving-force index concrete (rdf)"],
+            bounds={"classes": "ncls"}, opts={"ob_timeout": 30.0}, budget={"quick": 90.0, "thorough": 600.0},
+            params={"quick": [{"ncls": 3, "nel": 2, "rdf": 0}], "thorough": [{"ncls": 4, "nel": 2, "rdf": 0}, {"ncls": 4, "nel": 1 + 1, "rdf": 1}, {"ncls": 5, "nel": 3, "rdf": 0}]}))
